@@ -25,16 +25,23 @@ void SetupInputs(std::size_t buffer_size, const UniversalVocab &vocab, util::Fix
   positions.clear();
   // TODO: much better memory sizing heuristics e.g. not making the chain larger than it will use.
   util::stream::ChainConfig config(0, 2, buffer_size);
+  // Only the highest order of the combined model has no backoff.  A model of
+  // lower order still has to supply (zero) backoffs for its own highest order.
+  std::size_t max_order = 0;
   for (std::size_t i = 0; i < models.size(); ++i) {
-    chains.push_back(models[i].Order() - exclude_highest);
-    for (std::size_t j = 0; j < models[i].Order() - exclude_highest; ++j) {
+    max_order = std::max(max_order, models[i].Order());
+  }
+  for (std::size_t i = 0; i < models.size(); ++i) {
+    const std::size_t orders = models[i].Order() - (exclude_highest && models[i].Order() == max_order);
+    chains.push_back(orders);
+    for (std::size_t j = 0; j < orders; ++j) {
       config.entry_size = sizeof(WordIndex) * (j + 1) + sizeof(float) * 2; // TODO do not include wasteful backoff for highest.
       chains.back().push_back(config);
     }
     if (i == models.size() - 1)
       chains.back().back().ActivateProgress();
     models[i].Source(chains.back());
-    for (std::size_t j = 0; j < models[i].Order() - exclude_highest; ++j) {
+    for (std::size_t j = 0; j < orders; ++j) {
       chains[i][j] >> Renumber(vocab.Mapping(i), j + 1);
     }
   }
